@@ -470,11 +470,11 @@ impl MDL {
             let mut offset = *offset;
             let mut string = String::new();
 
-            let mut next_char = model.header.strings[offset as usize] as char;
+            let mut next_char = *model.header.strings.get(offset as usize)? as char;
             while next_char != '\0' {
                 string.push(next_char);
                 offset += 1;
-                next_char = model.header.strings[offset as usize] as char;
+                next_char = *model.header.strings.get(offset as usize)? as char;
             }
 
             affected_bone_names.push(string);
@@ -486,11 +486,11 @@ impl MDL {
             let mut offset = *offset;
             let mut string = String::new();
 
-            let mut next_char = model.header.strings[offset as usize] as char;
+            let mut next_char = *model.header.strings.get(offset as usize)? as char;
             while next_char != '\0' {
                 string.push(next_char);
                 offset += 1;
-                next_char = model.header.strings[offset as usize] as char;
+                next_char = *model.header.strings.get(offset as usize)? as char;
             }
 
             material_names.push(string);
@@ -738,11 +738,11 @@ impl MDL {
                         let mut offset = shape.string_offset;
                         let mut string = String::new();
 
-                        let mut next_char = model.header.strings[offset as usize] as char;
+                        let mut next_char = *model.header.strings.get(offset as usize)? as char;
                         while next_char != '\0' {
                             string.push(next_char);
                             offset += 1;
-                            next_char = model.header.strings[offset as usize] as char;
+                            next_char = *model.header.strings.get(offset as usize)? as char;
                         }
 
                         shapes.push(Shape {
